@@ -375,3 +375,85 @@ Qed.
 Lemma example_template_escapes :
   xor_all (template_payload V2013 [7; 5; 0; 9]) = 126 /\ xor_all (template_payload V2013 [7; 8; 0; 7]) = 125.
 Proof. split; vm_compute; reflexivity. Qed.
+
+(* ------------------------------------------------------------------------------------------ *)
+(* Serial progression over the frames actually produced                                       *)
+(* ------------------------------------------------------------------------------------------ *)
+Theorem calls_serial_progression ver phone cs k c1 b1 c2 b2 :
+  digits phone -> (length phone <= maxlen ver)%nat ->
+  nth_error (effective ver cs) k = Some (c1, b1) -> nth_error (effective ver cs) (S k) = Some (c2, b2) ->
+  c1 < 65536 -> c2 < 65536 -> (length b1 <= 1023)%nat -> (length b2 <= 1023)%nat ->
+  exists t f1 f2 m1 m2,
+    with_header ver phone = Ok t /\
+    nth_error (somes (run_calls t cs)) k = Some f1 /\ nth_error (somes (run_calls t cs)) (S k) = Some f2 /\
+    decode f1 = Ok m1 /\ decode f2 = Ok m2 /\
+    m_serial m2 = (m_serial m1 + 1) mod 65536.
+Proof.
+  intros Hd Hl N1 N2 C1 C2 B1 B2.
+  destruct (calls_frames_decode ver phone cs k c1 b1 Hd Hl N1 C1 B1) as (t & f1 & m1 & W & F1 & D1 & _ & _ & _ & _ & _ & _ & S1 & _).
+  destruct (calls_frames_decode ver phone cs (S k) c2 b2 Hd Hl N2 C2 B2) as (t' & f2 & m2 & W' & F2 & D2 & _ & _ & _ & _ & _ & _ & S2 & _).
+  assert (t' = t) by congruence. subst t'.
+  exists t, f1, f2, m1, m2. repeat split; auto. rewrite S1, S2. apply serial_progression.
+Qed.
+
+(* the first produced frame carries serial 1 *)
+Theorem calls_first_serial ver phone cs c b :
+  digits phone -> (length phone <= maxlen ver)%nat ->
+  nth_error (effective ver cs) 0 = Some (c, b) -> c < 65536 -> (length b <= 1023)%nat ->
+  exists t f m, with_header ver phone = Ok t /\ nth_error (somes (run_calls t cs)) 0 = Some f /\
+    decode f = Ok m /\ m_serial m = 1.
+Proof.
+  intros Hd Hl N1 C1 B1.
+  destruct (calls_frames_decode ver phone cs 0 c b Hd Hl N1 C1 B1) as (t & f & m & W & F & D & _ & _ & _ & _ & _ & _ & S & _).
+  exists t, f, m. repeat split; auto.
+Qed.
+
+(* ------------------------------------------------------------------------------------------ *)
+(* C20_expected_reply applies to every default frame of a reply-bearing command               *)
+(* ------------------------------------------------------------------------------------------ *)
+Lemma body_wf_ext m m' : m_id m = m_id m' -> m_body m = m_body m' -> body_wf m = body_wf m'.
+Proof. intros E1 E2. unfold body_wf. now rewrite E1, E2. Qed.
+Lemma auth_too_short_ext m m' : m_id m = m_id m' -> m_ver m = m_ver m' -> m_body m = m_body m' ->
+  auth_too_short m = auth_too_short m'.
+Proof. intros E1 E2 E3. unfold auth_too_short. now rewrite E1, E2, E3. Qed.
+
+Definition probe_msg (ver cmd : N) (b : list N) : msg :=
+  {| m_id := cmd; m_len := 0; m_enc := 0; m_frag := 0; m_ver := if ver =? V2019 then 1 else 0; m_bcd := [];
+     m_serial := 0; m_sum := 0; m_no := 0; m_body := b; m_check := 0 |}.
+
+Lemma default_frames_wf_all :
+  forallb (fun ver => forallb (fun cmd =>
+    match default_body ver cmd with
+    | Some b => body_wf (probe_msg ver cmd b) && negb (auth_too_short (probe_msg ver cmd b)) && (length b <=? 1023)%nat
+    | None => false
+    end) sim_reply_ids) [V2011; V2013; V2019] = true.
+Proof. vm_compute. reflexivity. Qed.
+
+Theorem default_frames_reply_wf ver cmd b m :
+  In ver [V2011; V2013; V2019] -> In cmd sim_reply_ids -> default_body ver cmd = Some b ->
+  m_id m = cmd -> m_ver m = (if ver =? V2019 then 1 else 0) -> m_body m = b ->
+  body_wf m = true /\ auth_too_short m = false /\ (length b <= 1023)%nat.
+Proof.
+  intros Hv Hc Hb E1 E2 E3.
+  pose proof default_frames_wf_all as A. rewrite forallb_forall in A. specialize (A _ Hv).
+  rewrite forallb_forall in A. specialize (A _ Hc). rewrite Hb in A.
+  apply andb_true_iff in A. destruct A as [A A3]. apply andb_true_iff in A. destruct A as [A1 A2].
+  rewrite (body_wf_ext m (probe_msg ver cmd b)), (auth_too_short_ext m (probe_msg ver cmd b)) by (cbn; auto).
+  repeat split; auto.
+  - destruct (auth_too_short (probe_msg ver cmd b)); [discriminate|reflexivity].
+  - apply Nat.leb_le. exact A3.
+Qed.
+
+(* concrete witnesses: a generated frame and its decoding; the prediction for it and the frame the
+   server model writes for it (platform serial 0), byte for byte *)
+Lemma example_generated_frame :
+  exists f m, nth_error (somes (run_calls (sim0 V2013 [7; 5; 0; 9]) [CDefault 0x0104; CDefault 0x0002])) 0 = Some f /\
+    f = [126; 0; 2; 0; 0; 0; 0; 0; 0; 117; 9; 0; 1; 127; 126] /\
+    decode f = Ok m /\ m_id m = 2 /\ m_serial m = 1 /\ phone_of m = [55; 53; 48; 57].
+Proof. eexists. eexists. repeat split; vm_compute; reflexivity. Qed.
+
+Lemma example_expected_reply :
+  let f := [126; 0; 2; 0; 0; 0; 0; 0; 0; 117; 9; 0; 1; 127; 126] in
+  exists r, map wire_bytes (writes (run (dm f))) = [r] /\
+            snd (expected_reply (sim0 V2013 [7; 5; 0; 9]) 0 f) = Some r.
+Proof. eexists. split; vm_compute; reflexivity. Qed.
